@@ -88,7 +88,7 @@ man = {
               "kind_free_text": "CrossHair symbolic execution of harnesses that call the real pedal functions from /repo (overlay venv), direct z3 for AST-translated kernels, native replay"}],
  "checks": checks,
  "not_applicable": na,
- "notes": "Exit codes: 0 no unlisted violation; 1 replayed violation (VIOLATION line); 2 harness error (nothing discharged). Known findings: known_findings.json. Seeded changes: seeded/."
+ "notes": "Exit codes: 0 no unlisted violation (HARNESS-ERROR line if nothing could be explored); 1 replayed violation (VIOLATION line); 2 usage error. Known findings: known_findings.json. Seeded changes: seeded/."
 }
 json.dump(man, open(os.path.join(ROOT, "MANIFEST.json"), "w"), indent=1)
 print("claimed:", sorted(claimed))
